@@ -33,6 +33,12 @@ func (s *Store) snapshotRevert(revertTo Snapshot) error {
 		return err
 	}
 
+	// The reverted footer is appended to the same file, so link it to
+	// the footer it supersedes to keep the history walkable.
+	if s.footer != nil {
+		footer.PrevFooterOffset = s.footer.filePos
+	}
+
 	err = s.persistFooter(revertToFooter.SegmentLocs[0].mref.fref.file, footer,
 		persistOptions)
 	if err != nil {
